@@ -53,9 +53,9 @@ class Prop(BaseProp):
                 constructs.extend(names)
                 return lines
             return []
-        b = Builder(rng, p_doc=0.75, max_depth=3, mkdoc=mkdoc, max_items=5, allow_dangling=False,
+        b = Builder(rng, p_doc=0.75, max_depth=3, mkdoc=mkdoc, max_items=5, allow_dangling=(idx % 3 == 0),
                     kinds=["function", "macro", "option", "set", "add_test", "ct_add_test", "cpp_class", "cpp_class",
-                           "generic", "plain", "block"])
+                           "generic", "plain", "block"] + (["dangling"] if idx % 3 == 0 else []))
         mod = b.module(module_doc=rng.random() < 0.4, module_name=rng.choice(["", "modN0Z"]))
         text = render(mod, Layout(rng, comments=0.1, wild=0.2, case="random"))
         exp = expected_entries(mod)
